@@ -632,6 +632,28 @@ impl TransactionManager {
     }
 }
 
+/// Verification-only clock override (compiled only with `--cfg neumann_verif`).
+/// When set, every time read of this module (transaction start / expiry, row-lock
+/// acquisition / expiry) returns the override instead of the wall clock.
+#[cfg(neumann_verif)]
+pub mod verif_clock {
+    use std::sync::atomic::{AtomicU64, Ordering};
+
+    static CLOCK_MS: AtomicU64 = AtomicU64::new(u64::MAX);
+
+    /// `Some(ms)` freezes the clock at `ms`; `None` restores the wall clock.
+    pub fn set(ms: Option<u64>) {
+        CLOCK_MS.store(ms.unwrap_or(u64::MAX), Ordering::SeqCst);
+    }
+
+    /// The override, if any.
+    #[must_use]
+    pub fn get() -> Option<u64> {
+        let v = CLOCK_MS.load(Ordering::SeqCst);
+        (v != u64::MAX).then_some(v)
+    }
+}
+
 /// Get current epoch time in milliseconds.
 ///
 /// # Panics
@@ -640,6 +662,10 @@ impl TransactionManager {
 /// a misconfigured system clock.
 #[allow(clippy::cast_possible_truncation)]
 fn now_epoch_millis() -> u64 {
+    #[cfg(neumann_verif)]
+    if let Some(t) = verif_clock::get() {
+        return t;
+    }
     std::time::SystemTime::now()
         .duration_since(std::time::UNIX_EPOCH)
         // System clock before UNIX epoch is extremely rare but handled gracefully
